@@ -501,6 +501,17 @@ class ForSysMachine(RuleBasedStateMachine):
         """Every history ends the same way: each solved frame is solved once more with the other right-hand side
         (no rebuild) and its pressure step is redone, so stale caches of either step always get a chance to show."""
         h = self.h
+        # (a) smooth the first solved frame, build it again with the very same options and solve (a cache keyed by
+        # the options must not hand back the matrix of the unsmoothed frame)
+        for t in sorted(h.last_solve)[:1]:
+            b = dict(h.last_build[t], t=t)
+            if b.get("op") == "build" and "fit" in b:
+                self._do({"op": "filter", "t": t})
+                if not h.dead:
+                    self._do(b)
+                if not h.dead:
+                    self._do(dict(h.last_solve[t], op="solve", t=sorted(h.last_build).index(t)))
+        # (b) re-solve every solved frame with the other right-hand side and redo its pressure step
         for t in sorted(h.last_solve):
             if h.dead:
                 return
